@@ -1,0 +1,20 @@
+//go:build verif
+
+package astnormalization
+
+// Contracts for the deductive verifier in /verif (comment-only file, build tag verif).
+
+// C06/C15: default values are injected only for variables the client did not provide. A provided value -
+// including an explicit null - is what validation and the subgraphs must see.
+//@ func variablesDefaultValueExtractionVisitor.EnterVariableDefinition
+//@   requires v != nil && v.operation != nil
+//@   assumes {walker.passes.a.valid.ref} 0 <= ref && ref < len(v.operation.VariableDefinitions)
+//@   ghost var g_looked bool = false
+//@   ghost var g_provided bool = false
+//@   at call jsonparser.Get: ghost g_looked = true
+//@   at call jsonparser.Get: ghost g_provided = result3 == nil
+//@   at call sjson.SetRawBytes: assert {a.provided.value.is.never.overwritten.by.the.default} g_looked && !g_provided
+//@   modifies *
+//@   safety no-bounds
+//@   loop 0:
+//@     invariant g_looked && !g_provided
